@@ -56,3 +56,12 @@ func (el *enumValueList) has(v Symbol) bool {
 	}
 	return false
 }
+
+// dup returns a copy that does not share the dictionary with the original.
+func (el *enumValueList) dup() enumValueList {
+	d := enumValueList{dict: make(map[string]*EnumValue, len(el.dict)), list: el.list}
+	for k, v := range el.dict {
+		d.dict[k] = v
+	}
+	return d
+}
